@@ -7,7 +7,7 @@ Tolerances (all relative to the yield stress sy, the strain scale, or ||C||; non
   dissipation     xi : d eps_p >= -1e-9 * |xi|    same reason
   flow rule       |d eps_p - dp N(xi)| <= 2e-9 + 1e-6*|d eps_p|
   stress/state    |sig - Compute_sigma(eps6, z)| <= 1e-8 * max(sy, 1)
-  tangent         |C_alg - C_fd| <= 2e-4 * |C_fd|  Richardson central differences, same branch only
+  tangent         |C_alg - C_fd| <= 2e-4 * |C_fd| (1e-3 in plane stress)  Richardson central differences, same branch only
   solvers         |dsig| <= 1e-6*max(|sig|, sy) (1e-5 plane stress), |dz| <= 1e-8, |dC| <= 1e-3*|C|
   plane stress    |sig_zz| <= 2*max(1e-8*max(sy,1), 1e-9*Czz) + 1e-8*max(sy,1)   (the code's own stop test)
 """
@@ -80,7 +80,9 @@ def evaluate(c, r):
                 V.append(("plane-stress-szz", k, "sig_zz = %.3e > %.3e" % (s["szz"], lim)))
         fd = s.get("fd")
         if fd and "err" in fd and fd["same_branch"] and not custom:
-            if fd["err"] > 2e-4 * fd["norm"]:
+            # plane stress: sigma is only as accurate as the sig_zz stop test (1e-9*Czz), which the
+            # difference quotient amplifies by 1/h
+            if fd["err"] > (1e-3 if c["mode"] == "PS" else 2e-4) * fd["norm"]:
                 V.append(("tangent-vs-fd", k, "|C_alg - C_fd| / |C_fd| = %.3e" % (fd["err"] / fd["norm"])))
         so = s.get("solver")
         if so and "dsig" in so and so.get("ok_other") and not custom:
